@@ -66,6 +66,15 @@ fixed('C16', 'FaceVariable.rvalue setter raises', 'L2 rvalue setter assigns _xva
 fixed('C16', 'thetavalue/phivalue raise AttributeError', 'L2 thetavalue/phivalue on SphericalGrid1D: NotImplementedError')
 fixed('C16', 'wrong number of constructor arguments', 'L5 PolarGrid2D/CylindricalGrid3D/SphericalGrid3D arity: IndexError/UnboundLocalError')
 
+SH = ("CellVariable.__init__ stores the caller's BoundaryConditions object itself and solveExplicitPDE hands phi_old.BCs to the variable it returns, so "
+      "several variables can hold one BC object whose dirty flag any of them clears in apply_BCs: after an edit of the shared object the first "
+      "solve consumes the flag and the next solve of another holder uses its stale cached boundary term / ghost values. Not repaired: copying the "
+      "BCs in the constructor would silently change the documented usage (users keep editing the object they passed in), and a per-holder "
+      "version counter is not a minimal patch.")
+known('C09', 'P7', 'cell.CellVariable.__init__/shared-BC-object', SH)
+known('C09', 'P7', 'pdesolver.solveExplicitPDE/shared-BC-object', SH)
+fixed('C15', 'faceLocations (1D) returns a copy', 'Z4 faceLocations 1D stores the mesh face array itself in the returned FaceVariable')
+
 exec(open(os.path.join(os.path.dirname(__file__), 'known_more.py')).read()) if os.path.exists(os.path.join(os.path.dirname(__file__), 'known_more.py')) else None
 json.dump(dict(findings=f), open('/verif/known_findings.json', 'w'), indent=1)
 print(len(f), 'entries')
